@@ -7,15 +7,16 @@ import (
 	"time"
 
 	tls "github.com/refraction-networking/utls"
+	"verif/harness/hlib"
 )
 
 // wireHello starts a real handshake on a pipe whose peer hangs up as soon as the client has written
 // something, and returns the bytes the client put on the wire together with the handshake error.
-func wireHello(uc func(c *bufConn) *tls.UConn) (u *tls.UConn, wire []byte, err error, panicked string) {
-	c, s := bufPipe()
+func wireHello(uc func(c *hlib.BufConn) *tls.UConn) (u *tls.UConn, wire []byte, err error, panicked string) {
+	c, s := hlib.BufPipe()
 	c.SetDeadline(time.Now().Add(3 * time.Second))
 	var once sync.Once
-	c.onWrite = func([]byte) { once.Do(func() { go s.Close() }) }
+	c.OnWrite = func([]byte) { once.Do(func() { go s.Close() }) }
 	func() {
 		defer func() {
 			if p := recover(); p != nil {
@@ -44,7 +45,7 @@ type helloCase struct {
 // hellos: {"cases":[{id,sni,alpn,n,omit}]} -> per connection {ev:"Hello", id, sni, k, raw (wire bytes of
 // the first ClientHello handshake message), hsraw (HandshakeState.Hello.Raw after the attempt), builderr}
 func init() {
-	register("hellos", func(in []byte, out *Out) error {
+	hlib.Register("hellos", func(in []byte, out *hlib.Out) error {
 		var req struct{ Cases []helloCase }
 		if err := json.Unmarshal(in, &req); err != nil {
 			return err
@@ -63,9 +64,9 @@ func init() {
 			}
 		}
 		res := make([]map[string]any, len(jobs))
-		parallel(len(jobs), func(i int) {
+		hlib.Parallel(len(jobs), func(i int) {
 			j := jobs[i]
-			id, err := lookupID(j.c.ID)
+			id, err := hlib.LookupID(j.c.ID)
 			if err != nil {
 				res[i] = map[string]any{"ev": "Error", "err": err.Error()}
 				return
@@ -74,19 +75,19 @@ func init() {
 			if j.c.SNI == "" {
 				cfg.InsecureSkipVerify = true
 			}
-			u, wire, herr, pn := wireHello(func(c *bufConn) *tls.UConn { return tls.UClient(c, cfg, id) })
-			chs := clientHellos(wire)
-			ev := map[string]any{"ev": "Hello", "id": j.c.ID, "sni": ints([]byte(j.c.SNI)), "k": j.k, "tag": j.c.Tag,
-				"nrec": len(records(wire)), "panic": pn, "err": errStr(herr)}
+			u, wire, herr, pn := wireHello(func(c *hlib.BufConn) *tls.UConn { return tls.UClient(c, cfg, id) })
+			chs := hlib.ClientHellos(wire)
+			ev := map[string]any{"ev": "Hello", "id": j.c.ID, "sni": hlib.Ints([]byte(j.c.SNI)), "k": j.k, "tag": j.c.Tag,
+				"nrec": len(hlib.Records(wire)), "panic": pn, "err": hlib.ErrStr(herr)}
 			if len(chs) > 0 {
-				ev["raw"] = ints(chs[0])
+				ev["raw"] = hlib.Ints(chs[0])
 				ev["sent"] = true
 			} else {
 				ev["raw"] = []int{}
 				ev["sent"] = false
 			}
 			if u != nil && u.HandshakeState.Hello != nil {
-				ev["hsraw"] = ints(u.HandshakeState.Hello.Raw)
+				ev["hsraw"] = hlib.Ints(u.HandshakeState.Hello.Raw)
 			} else {
 				ev["hsraw"] = []int{}
 			}
